@@ -2463,7 +2463,7 @@ class Connection_decode( decide ):
             truth, machine=machine, source=source, path=path, data=data )
         if truth:
             pathsrc		= path + '.' + self.src
-            parameters		= defaults.Connection( **data[pathsrc] )
+            parameters		= defaults.Connection( **dict( data[pathsrc], large=self.lrg ))
             data[pathsrc]	= parameters.decoding
 
         return target
